@@ -125,8 +125,11 @@ def expected_meta(c):
 def model_input(c, ptab):
     m = expected_meta(c)
     reads = case_reads(c)[0]
-    lo = 0
-    ref = c['ref']
+    # only the reference window the reads can touch is passed (offset lo); outside it the model reads 'N'
+    ms = [r['pos'] for r in reads if not r.get('unmapped')]
+    lo = max(0, min(ms) - 3) if ms else 0
+    hi = max(r['pos'] + ref_len(r['cigar']) for r in reads if not r.get('unmapped')) + 3 if ms else 0
+    ref = c['ref'][lo:hi]
     meta = [m['sample'], [m['umi']], ([] if m['site'] is None else [m['site']]), m['bc'], m['nfrag'], m['overflow'],
             [m['strand']], m['mapqs']]
     rd = []
@@ -190,6 +193,8 @@ class Gen:
             ops[-1][1] = last_m
         if clip_end and rng.random() < 0.3:
             ops.append([4, rng.randint(1, 5)])
+        if clip_end and rng.random() < 0.1:
+            ops.append([5, rng.randint(1, 9)])     # hard clip (outermost, consumes nothing)
         return ops
 
     def read(self, ref, pos, cigar, rev, err, qmode, mapq=None):
@@ -322,6 +327,13 @@ class Gen:
         return {'ref': ref, 'klass': 'nla', 'fragments': frags, 'sample': 'TIE_%d' % rng.randint(0, 99), 'umi': 'ACGTAC',
                 'bc': 'AACCGGTT', 'max_N_span': None, 'path': 'dedup', 'no_source': False, 'max_fragments': None}
 
+    def column(self, obs, ref):
+        """one reference position observed by len(obs) CHIC fragments (one 1M read each) with the given (base, qual)"""
+        P = 1000
+        frags = [{'reads': [{'pos': P, 'cigar': [[0, 1]], 'seq': b, 'qual': [q], 'rev': False, 'mapq': 60}, None]} for b, q in obs]
+        return {'ref': ref, 'klass': 'chic', 'fragments': frags, 'sample': 'COLUMN', 'umi': 'ACG', 'bc': 'AAAA',
+                'max_N_span': None, 'path': 'dedup', 'no_source': False, 'max_fragments': None}
+
     def shape(self, mask, maxN, ref):
         """single CHIC fragment, one read whose CIGAR covers exactly the positions of mask (bit i = position P+i)"""
         P = 1000
@@ -360,6 +372,9 @@ def cigar_blocks(start, cigar):
         else:
             return None
     return out
+
+
+KEY_D31 = 'C15:error:TypeError'
 
 
 class Prop(fw.PropBase):
@@ -406,6 +421,13 @@ class Prop(fw.PropBase):
             for maxN in (None, 0, 1, 2, 3):
                 cs.append(g.shape(mask, maxN, ref))
         self.n_shapes = (1 << (W - 1)) * 5
+        # every column of up to 3 observations over bases {A, C, N} x qualities {0, 20, 30} (order matters)
+        alphabet = [(b, q) for b in 'ACN' for q in (0, 20, 30)]
+        self.n_columns = 0
+        for n in (1, 2, 3):
+            for obs in itertools.product(alphabet, repeat=n):
+                cs.append(g.column(list(obs), ref))
+                self.n_columns += 1
         return cs
 
     def cli_libs(self):
@@ -465,6 +487,13 @@ class Prop(fw.PropBase):
             extra = sorted(set(got) - set(covered))[:5]; miss = sorted(set(covered) - set(got))[:5]
             v.append(('blocks', 'aligned blocks are not the covered positions: %d covered, %d in records; not covered but aligned %r; '
                       'covered but missing %r' % (len(covered), len(got), extra, miss)))
+        if 'source' in im_keys(impl) and c['path'] == 'write' and not impl.get('cli'):
+            want = 0 if c['no_source'] else len(case_reads(c)[0])
+            src = impl['source']
+            if len(src) != want:
+                v.append(('source', '%d source reads written next to the consensus, expected %d (no_source_reads=%r)' % (len(src), want, c['no_source'])))
+            elif any(not x['dup'] for x in src):
+                v.append(('source', 'source reads written next to the consensus are not flagged duplicate'))
         gaps = [b - a - 1 for a, b in zip(covered, covered[1:]) if b - a > 1]
         nrec = 1 + (sum(1 for g_ in gaps if g_ > c['max_N_span']) if c['max_N_span'] is not None else 0)
         if len(recs) != nrec:
@@ -514,6 +543,15 @@ class Prop(fw.PropBase):
 
     # ---------------------------------------------------------------- K
     def correspondence(self):
+        try:
+            self._correspondence()
+        except fw.Broken:
+            raise
+        except Exception as e:   # fail closed: a harness failure is a break, never a silent pass or a bare traceback
+            import traceback
+            raise fw.Broken('correspondence', 'harness failure: %r\n%s' % (e, traceback.format_exc()[-1200:]))
+
+    def _correspondence(self):
         import time
         tm = {}
         t0 = time.time()
@@ -544,6 +582,19 @@ class Prop(fw.PropBase):
                                      'expected': 0 if lib['no_source'] else nsrc})
         self.cli_pairs, self.cli_problems = cli_pairs, cli_problems
         pairs = list(zip(cases, api)) + cli_pairs
+        # if C15-D31 is recorded as a known finding instead of being fixed: leave out exactly the molecules
+        # without a cut site that raise that TypeError (replay_known re-runs the recorded one)
+        known = {f.get('key') for f in fw.load_findings('C15')}
+        self.n_known_skipped = 0
+        if KEY_D31 in known:
+            keep = []
+            for c, im in pairs:
+                if expected_meta(c)['site'] is None and str(im.get('error', '')).startswith("TypeError: 'NoneType' object is not subscriptable"):
+                    self.n_known_skipped += 1
+                else:
+                    keep.append((c, im))
+            pairs = keep
+        self.cov['known_finding_cases_left_out'] = self.n_known_skipped
         # coverage numbers
         hist = {'klass': {}, 'nfrag': {}, 'records': {}, 'maxN': {}, 'path': {}}
         sig, nontrivial = set(), set()
@@ -579,8 +630,13 @@ class Prop(fw.PropBase):
                     '--consensus --multiprocess command line; every produced record is written to BAM and re-parsed by pysam. '
                     'distinct by hash of (class, reads, max_N_span); non-trivial = coverage has a gap or a column has conflicting bases',
             'distinct': len(sig), 'histograms': hist, 'corpus_cases': self.n_corpus,
-            'exhaustive': 'all %d coverage shapes of one read over a 9-position window (first position covered) x max_N_span in '
-                          '{None,0,1,2,3}' % (self.n_shapes // 5),
+            'exhaustive': False,
+            'exhaustive_scope': 'all %d coverage shapes of one read over a 9-position window (first position covered) x max_N_span in '
+                                '{None,0,1,2,3}, and all %d columns of 1-3 observations over {A,C,N} x qualities {0,20,30}, are enumerated '
+                                'completely; the other streams are sampled' % (self.n_shapes // 5, self.n_columns),
+            'samples': [{'klass': c['klass'], 'max_N_span': c['max_N_span'], 'path': c['path'],
+                         'reads': [[r['pos'], ''.join('%d%s' % (n, 'MIDNSHP=X'[op]) for op, n in r['cigar']), r['seq'][:40]]
+                                   for r in case_reads(c)[0]][:6]} for c in cases[self.n_corpus:self.n_corpus + 2]],
             'cli_libraries': len(libs), 'cli_molecules': len(cli_pairs),
             'aligned_pairs_vs_pysam': {'reads': pair_checks, 'cases_disagreeing': pair_bad},
         })
@@ -666,8 +722,8 @@ class Prop(fw.PropBase):
                                 'reads': [[r['pos'], ''.join('%d%s' % (n, 'MIDNSHP=X'[op]) for op, n in r['cigar'])] for r in case_reads(c)[0]],
                                 'impl': [[g_['start'], ''.join('%d%s' % (n, 'MIDNSHP=X'[op]) for op, n in g_['cigar']), g_['tags'].get('MD')] for g_ in got]})
         # the Coq MD reader and CIGAR walk on the implementation's records
-        dec = fw.run_model('C15', 2, md_dec_in)
-        walk = fw.run_model('C15', 3, [[g_['start'], g_['cigar']] for _, g_ in md_dec_meta])
+        dec = fw.run_model('C15', 2, md_dec_in) if md_dec_in else []
+        walk = fw.run_model('C15', 3, [[g_['start'], g_['cigar']] for _, g_ in md_dec_meta]) if md_dec_in else []
         for (i, g_), dd, ww in zip(md_dec_meta, dec, walk):
             c = pairs[i][0]
             posw, qlen = ww
@@ -681,11 +737,12 @@ class Prop(fw.PropBase):
             'records_compared': n_rec, 'base_calls_compared': n_calls - n_excl_near - n_excl_tie,
             'base_calls_excluded_near_tie': n_excl_near, 'exact_ties': n_ties, 'exact_ties_excluded_order_sensitive': n_excl_tie,
             'cases_skipped_fragment_association': skipped_assoc,
-            'traces_validated_against_impl': len(pairs) - skipped_assoc, 'samples': samples, 'disagreements': len(dis),
+            'traces_validated_against_impl': len(pairs) - skipped_assoc, 'disagreements': len(dis),
         })
+        self.cov['samples'] = (samples + self.cov['samples'])[:4]
         # vm_compute cross-check of the extracted model on a sample
         small = [i for i, (c, _) in enumerate(pairs) if sum(len(r['seq']) for r in case_reads(c)[0]) < 160]
-        idx = sorted(self.rng.sample(small, min(100, len(small))))
+        idx = sorted(self.rng.sample(small, min(100, len(small)))) if small else []
         t0 = time.time()
         ok, nm, log = fw.vm_crosscheck('C15', 0, [(model_input(pairs[i][0], ptab), mv[i]) for i in idx])
         tm['vm_s'] = round(time.time() - t0, 1)
@@ -698,6 +755,27 @@ class Prop(fw.PropBase):
             first = {k: v for k, v in first.items() if k != 'case_obj'}
             raise fw.Broken('correspondence', 'model and implementation disagree on %d records/cases (spec fails on %d molecules); first: %s'
                             % (len(dis), len(spec_bad), json.dumps(first, default=str)[:1500]))
+
+    # ---------------------------------------------------------------- known findings
+    def replay_known(self, finding):
+        """re-run the recorded corpus case of a finding on the implementation; True while it still fails the same way"""
+        fn = {KEY_D31: 'd31_no_cut_site.json', 'C15:md': 'd18_md_gap.json', 'C15:error:AttributeError': 'd17_np_product.json'}.get(finding.get('key'))
+        if fn is None:
+            return False
+        c = json.load(open(os.path.join(fw.VERIF, 'corpus', 'C15', fn)))['case']
+        res = fw.run_impl('impl_c15.py', {'api': [c], 'cli': []})
+        keys = set()
+        for key, text in self.spec_violations(c, res['api'][0], res['ptab']):
+            keys.add('C15:%s' % (('error:' + text.split(':')[0].replace('consensus raised ', '')) if key == 'error' else key))
+        return finding.get('key') in keys
+
+    def matches(self, finding, witness):
+        # narrow: the same kind of failure AND (for D31) a molecule without a cut site
+        if finding.get('key') != witness.get('key'):
+            return False
+        if finding.get('key') == KEY_D31:
+            return isinstance(witness.get('input'), dict) and witness['input'].get('klass') == 'base'
+        return True
 
     # ---------------------------------------------------------------- search
     def search(self):
@@ -756,6 +834,10 @@ def run_model_par(mode, inputs, workers=8):
     for i, o in enumerate(outs):
         res[i::k] = o
     return res
+
+
+def im_keys(impl):
+    return impl.keys() if isinstance(impl, dict) else ()
 
 
 def _blocks_of(pos):
